@@ -85,6 +85,16 @@ func (o *OCIDir) closeProcManifest(ctx context.Context, r ref.Ref, m manifest.Ma
 			cr := r.SetDigest(cur.Digest.String())
 			(*dl)[cr.Digest] = true
 			cm, err := o.manifestGet(ctx, cr)
+			if err != nil && cur.Digest.Validate() == nil {
+				// a nested manifest is not listed in index.json, its media type may only be known from
+				// the descriptor in the parent, without it the content of the manifest would be collected
+				//#nosec G304 file name is built from a validated digest
+				if mb, errRead := os.ReadFile(path.Join(r.Path, "blobs", cur.Digest.Algorithm().String(), cur.Digest.Encoded())); errRead == nil {
+					cd := cur
+					cd.Data = nil
+					cm, err = manifest.New(manifest.WithRef(cr), manifest.WithDesc(cd), manifest.WithRaw(mb))
+				}
+			}
 			if err != nil {
 				// ignore errors in case a manifest has been deleted or sparse copy
 				o.slog.Debug("could not retrieve manifest",
